@@ -17,11 +17,11 @@ from env import NOW, SP_ID, SP_ACS_POST, SP_ACS_REDIRECT
 from saml2_tophat.saml import SCM_BEARER
 
 CLAIM = {
-    "text": "Coq theorems (Props/C05.v) over the model of the SP response pipeline (Model/Response.v: _parse_response, loads, verify, _assertion, condition_ok, for_me, get_subject, _bearer_confirmed, verify_recipient) and of where its return addresses come from (Model/Endpoints.v: Config.endpoint, Base.service_urls, asynchop choice, parse_authn_request_response with an ARBITRARY assertion_consumer_service table and arriving binding), for every response content, signature state, clock and configuration: unless unsolicited responses are allowed an accepted response's InResponseTo is an outstanding request and every retained confirmation of its plain and decrypted assertions names that request; service_urls hands out exactly the urls registered for the binding; an accepted browser-binding response's Destination matches the pattern or is registered for THAT binding (an own endpoint of another binding, a foreign url, any url when the SP has no endpoint for the binding is refused); with conversation info every retained confirmation's Recipient is the entity id or registered for that binding; the same for the n-th call of any history of calls on one SP; every audience restriction of every accepted assertion names the SP (the two deviations of the earlier code are refuted with witnesses, repaired by fix: commits). Tie: the cross product of the quantifier, 18 endpoint tables x arriving binding x Destination / Recipient kinds x pattern x conv info, confirmation layouts x plain / encrypted / multi-assertion delivery x outstanding-request variants on long-lived SP objects, and call histories on fresh SP objects, implementation vs model every run.",
-    "note": "Trusted: Coq kernel + vm_compute; the hand-written pipeline model is tied to the code by the exhaustive cross-product correspondence at accept/reject + returned-observables granularity; the regular-expression engine is an oracle input (re.search verdict); responses with <Advice> and attribute-query responses are outside the model; signatures are irrelevant here (unsigned path, proved independent).",
+    "text": "Coq theorems (Props/C05.v) over the model of the SP response pipeline (Model/Response.v: _parse_response, loads, verify, _assertion, condition_ok, for_me, get_subject, _bearer_confirmed, verify_recipient) and of where its return addresses come from (Model/Endpoints.v: Config.endpoint, Base.service_urls, asynchop choice, parse_authn_request_response with an ARBITRARY assertion_consumer_service table and arriving binding), for every response content, signature state, clock and configuration: unless unsolicited responses are allowed an accepted response's InResponseTo is an outstanding request and every retained confirmation of its plain and decrypted assertions names that request; service_urls hands out exactly the urls registered for the binding; an accepted browser-binding response's Destination matches the pattern or is registered for THAT binding (an own endpoint of another binding, a foreign url, any url when the SP has no endpoint for the binding is refused); with conversation info every retained confirmation's Recipient is the entity id or registered for that binding; the same for the n-th call of any history of calls on one SP; the solicited clause holds in terms of the EFFECTIVE allow_unsolicited of an SP built from a configuration of any class whose sp section SPELLS the option any way (Model/C05Opts.v over Client.load_special / resolve of C02: exactly the strings true / false become booleans, None and absence give the default False, anything else counts by truth): the string false is False, the effective value is false exactly for absent / None / False / 'false' / '' / 0, and such an SP refuses unsolicited responses at every call of any history; every audience restriction of every accepted assertion names the SP (the two deviations of the earlier code are refuted with witnesses, repaired by fix: commits). Tie: the cross product of the quantifier, 18 endpoint tables x arriving binding x Destination / Recipient kinds x pattern x conv info, confirmation layouts x plain / encrypted / multi-assertion delivery x outstanding-request variants on long-lived SP objects, call histories on fresh SP objects, and 18 spellings of allow_unsolicited x {SPConfig, Config, config_factory} x solicited / unsolicited messages on long-lived and fresh SP objects, implementation vs model every run.",
+    "note": "Trusted: Coq kernel + vm_compute; the hand-written pipeline model is tied to the code by the exhaustive cross-product correspondence at accept/reject + returned-observables granularity; strings other than the exact true / false ('False', 'no', '0' ...) are modelled as the code treats them (non-empty string = allowed); the regular-expression engine is an oracle input (re.search verdict); responses with <Advice> and attribute-query responses are outside the model; signatures are irrelevant here (unsigned path, proved independent).",
     "technique": "machine-checked proof (Coq) + exhaustive cross-product correspondence + implementation-level oracle",
 }
-TRUSTED = ["modelled: the SP response pipeline of response.py / entity.py as Model/Response.v, Config.endpoint / Base.service_urls as Model/Endpoints.v (see their headers); not modelled: attribute-query responses, Advice, EncryptedID, holder-of-key extension parsing beyond 'has KeyInfo'",
+TRUSTED = ["modelled: the SP response pipeline of response.py / entity.py as Model/Response.v, Config.endpoint / Base.service_urls as Model/Endpoints.v, Config.load_special / getattr / Base.__init__ option resolution as Model/Client.v + Model/C05Opts.v (see their headers); not modelled: attribute-query responses, Advice, EncryptedID, holder-of-key extension parsing beyond 'has KeyInfo'",
            "re.search on the destination pattern is computed by Python and passed to the model as dest_regex_match"]
 ASSUMPTIONS = ["the response arrives over a browser binding unless the cell says SOAP", "regex verdict supplied per case"]
 RULE = ("cells = InResponseTo{match,other-outstanding,unknown,absent} x SCD-InResponseTo{match,other-outstanding,unknown,absent} x Destination{own,foreign,absent} "
@@ -30,7 +30,9 @@ RULE = ("cells = InResponseTo{match,other-outstanding,unknown,absent} x SCD-InRe
         "product by a covering design (every pair of factor values), thorough runs it whole.  Per-binding part (c05gen.py): service_urls for 18 ACS tables x 5 bindings (whole); "
         "block D = tables x arriving {post,redirect,artifact} x Destination {P,R,A,bare,foreign,near-miss,absent} x pattern (whole); block R = tables x arriving x Recipient (6) x conv-info (3) x {plain,encrypted} "
         "(whole for the 10 small tables); block S = irt x scd x allow_unsolicited x confirmation layout (5) x delivery {plain,encrypted,plain+encrypted, 3 multi-assertion} x outstanding variant (4) "
-        "(whole for the first two variants); 700 random cells; 60 histories of 6 calls on a fresh SP object; non-trivial = distinct cell / history")
+        "(whole for the first two variants); 700 random cells; 60 histories of 6 calls on a fresh SP object; spellings (c05opts.py): 18 spellings of allow_unsolicited x 3 configuration classes "
+        "x messages (irt x scd whole, hidden confirmations, encrypted, each browser binding, SOAP) - quick: whole for SPConfig, the ten core spellings x single-confirmation messages for the other classes - "
+        "and one 6-call history per spelling and class on a fresh SP object; non-trivial = distinct cell / history")
 
 AUD_LAYOUTS = {
     "none": [], "me": [[SP_ID]], "other": [["https://other.example.org/sp"]],
